@@ -418,6 +418,9 @@ func compareDesc(rule string, got, want *adapt.Desc) []Diff {
 
 func (c *Client) stepUnderFailure(op adapt.Op, got adapt.Outcome) []Diff {
 	want := failClass(c.Fail)
+	if got.Class == adapt.ClsNotImpl {
+		return nil // the SDK v1 adapter has no BatchGetItem at all
+	}
 	if op.Kind == adapt.OpBatchWrite && c.Fail == "internal_server" {
 		// every request must be reported unprocessed (none can have been applied while failing)
 		if got.Class != adapt.ClsOK {
@@ -953,6 +956,11 @@ func (c *Client) stepUpdateTable(op adapt.Op, got adapt.Outcome) []Diff {
 	changes := op.Chg
 	if op.Kind == adapt.OpAddIndex {
 		changes = []adapt.IndexChange{{Create: op.Ix}}
+		if t.Spec.Billing != "PAY_PER_REQUEST" {
+			// the AddIndex helper never supplies a provisioned throughput, which a global secondary
+			// index of a provisioned table needs
+			return wantClass(op, got, adapt.ClsValidation)
+		}
 	}
 	// validate the whole request first: a failing request must leave no trace (C08)
 	names := map[string]bool{}
